@@ -1181,6 +1181,26 @@ def _t(label, t0=[None]):
     t0[0] = now
 
 
+def audit_state(out):
+    """tools-level static audit of module-/class-level mutable state (harness/props/c20_audit.py) against the
+    list recorded for the pinned tree (c20_state_sites.json); returns the related-group kinds to add"""
+    from harness.props import c20_audit
+    try:
+        base = json.loads((core.VERIF / "harness" / "props" / "c20_state_sites.json").read_text())
+        keys = sorted({c20_audit.site_key(s) for s in c20_audit.audit(str(core.REPO))})
+    except Exception as e:          # the audit is an aid, never a verdict
+        out.extra["state_audit"] = {"error": f"{type(e).__name__}: {e}"}
+        return []
+    new = [k for k in keys if k not in base["sites"]]
+    kinds = []
+    for k in new:
+        for pre, ks in base["files_to_kinds"].items():
+            if k.split("|")[0].startswith(pre):
+                kinds += [x for x in ks if x not in kinds]
+    out.extra["state_audit"] = {"sites": len(keys), "new_sites": new, "more_related_groups_for": kinds}
+    return kinds
+
+
 def run(ctx, out, replay=None):
     quick = ctx.quick()
     _t("start")
@@ -1191,7 +1211,15 @@ def run(ctx, out, replay=None):
                 "SAT posting sequence / legaliser Model construction / Strop / objects built from default arguments; "
                 "history = 1-12 such operations on other designs rescaled by 2^-9..2^9 within the factor-1000 rule; "
                 "exact-stream geometric probes come in a robust and a non-robust variant (a shift of 2^j times the "
-                "probe's own tolerance, distance or area). non-trivial = non-empty history; distinct by hash")
+                "probe's own tolerance, distance or area). RELATED histories (harness/props/c20_related.py): "
+                "near-duplicates of the probed design - the design itself (0-3 times), the same rectangles / modules "
+                "/ nets / cells / terms / variables in another order, one field different (tag, ratio, depth, bound, "
+                "polarity, coefficient, one coordinate 2^-20 away), dies over exactly the same cut coordinates with "
+                "other occupied cells (every single-cell move / addition / removal of a base pattern, the "
+                "complement), transposed / mirrored / rescaled by 2, the same rectangles through another class, the "
+                "same document as text or with integers - interleaved with 0-3 unrelated operations; the probe and "
+                "up to three of its near-duplicates are each executed at the end of that history. "
+                "non-trivial = non-empty history; distinct by (order-sensitive) hash")
     cases = []
     if replay and "case" in replay:
         cases.append(fr.unjson(replay["case"]))
@@ -1200,8 +1228,14 @@ def run(ctx, out, replay=None):
     for _ in range(ngroups):
         cases += gen_group(ctx.rng, ctx.rng.choice([3, 4, 5]))
     nrel = 0
-    for i in range(nrelated):
-        g = gen_related_group(ctx.rng, REL_KINDS[i % len(REL_KINDS)])
+    kinds = [REL_KINDS[i % len(REL_KINDS)] for i in range(nrelated)]
+    # process-wide state the checked tree has and the pinned tree had not (static audit; informative): more
+    # histories of near-duplicates for the operations of the files concerned
+    extra = audit_state(out)
+    kinds += (extra * 3)[:12 if quick else 120]
+    nunrel = len(cases)
+    for k in kinds:
+        g = gen_related_group(ctx.rng, k)
         nrel += len(g)
         cases += g
     # JSON round trip so that replayed and generated cases have the same representation
@@ -1241,7 +1275,9 @@ def run(ctx, out, replay=None):
     stats["nonrobust_probes_that_differ"] = sum(
         1 for (c, _), v in zip(rob, vals)
         if v is False and _CACHE[case_key(c)]["alone"]["digest"] != _CACHE[case_key(c)]["after"]["digest"])
+    stats["related_pairs"] = nrel
     out.extra["c20_stats"] = stats
     _t("robust count")
-    fresh_crosscheck(ctx, out, [c for c in cases if "crash" not in _CACHE.get(case_key(c), {})][ncorpus:],
-                     6 if quick else 40)
+    okc = lambda cs: [c for c in cs if "crash" not in _CACHE.get(case_key(c), {})]
+    nf = 3 if quick else 20
+    fresh_crosscheck(ctx, out, okc(cases[ncorpus:nunrel])[:nf] + okc(cases[nunrel:])[:nf], 2 * nf)
